@@ -75,6 +75,9 @@ def fragment_lines(f: dict) -> list[str]:
         "compare": [f"{A} in {B}", f"{A} is {B}", f"{A} == {B} < {A}", f"{A} not in {B}"],
         "annotation": [f"def inner(p: {AN}, *a: {AN}, **k: {AN}) -> {AN}:", "    return p", f"inner({A})"],
         "string_annotation": [f"def inner(p: \"{AN}\") -> \"{AN} | None\":", "    return p", f"x: \"{AN}\" = {A}"],
+        "odd_string_annotation": [f"def inner(p: \"lambda: {AN}\", q: \"{AN} if 1 else {AN}\", r: \"[{AN} for _ in ()]\") -> \"not {AN}\":", "    return p",
+                                  f"y: \"{AN}.attr[0](1)\" = {A}", f"z: \"-{AN}\" = {A}", f"w: \"{{1: {AN}}}\" = {A}"],
+        "mixed_returns": ["def inner(c: bool):", "    if c:", f"        return {A}", "    elif c is None:", "        return int", "    return HelperCls", "inner(True)"],
         "decorator": [f"@{A}", "def inner(q):", "    return q", "inner(1)"],
         "class_base": [f"class Inner({A}, metaclass=type):", "    pass", "Inner()"],
         "class_body": ["class Inner:", f"    x: {AN} = {A}", "    def m(self):", "        return self.y + self.x", "Inner().m().nope"],
@@ -247,7 +250,11 @@ def run(check: core.Check) -> None:
     pem = core.require_ok(core.run_tlc("AssignEmit", "Assign.emit1.cfg", timeout=1800), "value pairs emit")
     check.add_tlc("value-pairs", pem)
     pairs = core.emitted_json(pem)
-    pairs = rnd.sample(pairs, min(len(pairs), 8000 if quick else 108000))
+    allpairs = pairs
+    pairs = rnd.sample(allpairs, min(len(allpairs), 8000 if quick else 10**9))
+    # always include the pairs with a big literal union on either side (set-based fast paths of MultiValuedValue)
+    big = [p for p in allpairs if any(t["k"] == "union" and len(t["ms"]) >= 10 for t in (p["a"], p["b"]))]
+    pairs = pairs + [p for p in big if p not in pairs]
     check.cov["exhaustive"] = False
     check.cov["rule"] = ("modules = sequences of fragments generated by TLC (every single fragment exhaustively, longer sequences by "
                          "simulation) x 2 configurations; value pairs from Assign.tla's generator; non-trivial = distinct modules")
